@@ -83,6 +83,11 @@ CHECKS = {
   "note": "Trusted: my GKF reader / XML result reader. Re-adjustment tolerances are tied to gama's own stopping criteria (0.0005 mm per observation, 0.1 cc on dh reductions times sight length). Cases in which gama removes a point (weak configuration) are left to C14/C20.",
   "technique": "property-based round-trip / fixed-point testing (Hypothesis) of gama-local --export through the real binary",
  },
+ "C14": {
+  "text": "Generated-input search: error-free determined networks (all cluster types, 1D/2D/3D, all axes orientations, degrees, correlated clusters, exact or perturbed approximate coordinates) with injected blunders of f*tol-abs positional misclosure (f 0.3..40, never within 2 % of the threshold) on every observation type, declared points without coordinates, points with a single determining distance, observations to undeclared points, single-direction stations. Oracle: the set gama flags equals the prediction of my own misclosure model (incl. the median orientation of direction sets); the text output lists every excluded observation (row count and types) and every removed point with its reason; the XML counts equal the predicted kept observations; the XML results equal those of the input with the excluded items deleted.",
+  "note": "Trusted: my misclosure model and readers; C10 covers the sub-matrix rule used when an observation is deleted from a correlated cluster. One known finding (angular observations are removed with the weighted term) is excluded by tag; equivalence is then checked against what gama really excluded.",
+  "technique": "property-based metamorphic testing (Hypothesis): defect injection + reference misclosure model + delete-equivalence through the real binary and a library driver",
+ },
  "C12": {
   "text": "Generated-input search: noisy networks with identifiers / descriptions / extern values containing XML specials, non-ASCII and long strings, generated --cov-band, angular unit, language and encoding; one run of the real binary writes XML, HTML, text and Octave; checks: well-formed XML with exact identifiers, gama's own XML reader equal to my reader field by field, HTML reader to HTML precision, text and Octave carrying the same coordinates and v'Pv, compare-xyz and gama-local-deformation on identical and translated epochs.",
   "note": "Trusted: Python expat + my reader as reference, small purpose-built readers of the text/Octave layouts. Two known findings about the HTML reader (entity-split identifiers, non-English labels) are excluded by tag.",
